@@ -232,6 +232,33 @@ func kernelPolarity(fn *ssa.Function, nullable bool) (string, string) {
 	if !nullable {
 		return "n/a", "column type has no nulls"
 	}
+	// preferred: evaluate the kernel in its null worlds (E5, as R79 does)
+	if src, bIdx, colcol := kernelRoles(fn); bIdx != nil && (len(src) == 1 || len(src) == 2) {
+		worlds := [][2]bool{{true, false}}
+		if colcol {
+			worlds = [][2]bool{{true, false}, {false, true}, {true, true}}
+		}
+		res, decided := "", true
+		for _, w := range worlds {
+			kb := evalKernelWorld(fn, src, bIdx, colcol, w[0], w[1], "=")
+			if !kb.returned || kb.nStores > 0 && !kb.known {
+				decided = false
+				break
+			}
+			r := "false"
+			if kb.nStores > 0 && kb.got {
+				r = "true"
+			}
+			if res == "" {
+				res = r
+			} else if res != r {
+				return "unknown", "the null worlds disagree"
+			}
+		}
+		if decided && res != "" {
+			return res, ""
+		}
+	}
 	stores := boolStores(fn)
 	if len(stores) == 0 {
 		// thin wrapper: follow a single static module callee that receives the boolean index
